@@ -6,6 +6,14 @@ props = [json.loads(l) for l in open(os.path.join(V, "properties.jsonl"))]
 
 # property -> (level text, level note, technique, design_ref)
 CLAIMED = {
+ "C15": ("TLC drives every option list (well- and ill-formed, <= 2 tokens, all leads, trailing comma) on the four targets, 16 non-supported "
+         "item kinds, every dependency-parameter shape (13 bases x 6 reference/paren wrappings) in fn/mod/impl-block mode with and without "
+         "no_deps, and 280 trait shapes through the modelled front end (Opts, Sig) and checks NeverPanics and MisuseRejected (each documented "
+         "misuse ends in its own error class). Every case is replayed through the real macro in real rustc; TLC judges the hook's record "
+         "(panic flag, emitted tokens parse) and rustc's per-case diagnostics against Level 1 (Req!C15, key phrases) and the outcome class against the model.",
+         "bounded domains as listed; diagnostic position observed as attribution to the case file; messages by key phrases; trusts rustc, TLC, projector",
+         "TLA+ model of attribute parsing / item classification / dependency analysis checked by TLC for panic-freedom + exhaustive replay with TLC validating recorded outcomes and diagnostics",
+         "7/C15"),
  "C17": ("TLC explores the attribute parser (Opts.tla: one ParseOneOpt step per option token, EndOfOpts, ApplyVariantFallbacks) over all "
          "well-formed option lists with distinct keys per target, both macro names and both feature settings, and checks that the effective "
          "options are constant on every metamorphic pair of the statement (bare=true, false=omitted, order, export-variant, unimock-feature) "
